@@ -140,8 +140,8 @@ func init() {
 		Technique: "emitted-brace typestate over the template functions (all schemas) + compile-fail witness: the working-tree generator is run as a build step on a schema corpus and its output is type-checked with go/types",
 		DesignRef: "DESIGN.md 3.12, 4 C12",
 		LevelText: "T.brace: every function of the template packages that emits code is abstractly interpreted with state = net braces/parens of the constant text it emits; branch conditions over never-reassigned locals are enumerated as atoms, switch arms are nondeterministic; all paths of a function must agree, loop bodies and root emitters must be balanced - this holds for all schemas, not only the corpus. GEN.*: the generator built from the working tree must answer every corpus schema (kind x shape matrix, 1..5-byte tags, interleaved oneofs, nesting/recursion, cross-package imports, well-known types, name collisions, sparse enums, the schemas embedded in the checked-in files) with sources that type-check (thorough: also GOARCH=386 and the full 12x17 map matrix), an unknown feature with an error, proto2 / unrequested files with no output. The emitted code is only analysed, never run; the codec engines of C01-C04/C06/C14 (SIZE, ENC, DEC, DET, UNK, BND) are applied to everything the working-tree generator emitted, so a template change that breaks a wire-format clause for some kind x shape x tag-width cell of the corpus is reported here as well. Not decided: totality for schemas outside the corpus beyond T.*; M/paths= parameter handling is protogen's.",
-		Engines:      E{tmpl.RunBrace, tmpl.RunNames, tmpl.RunKinds, tmpl.RunFlow, tmpl.RunDetPure, tmpl.RunS2, codec.RunSize, codec.RunEnc, codec.RunDec},
-		RulePrefixes: []string{"T.brace", "T.names", "T.kinds", "T.flow", "T.pure", "T.anchor", "GEN", "G.model", "G.anchor", "SIZE", "ENC", "DEC", "DET", "UNK.default", "BND"},
+		Engines:      E{tmpl.RunBrace, tmpl.RunNames, tmpl.RunImports, tmpl.RunKinds, tmpl.RunFlow, tmpl.RunDetPure, tmpl.RunS2, codec.RunSize, codec.RunEnc, codec.RunDec},
+		RulePrefixes: []string{"T.brace", "T.names", "T.imports", "T.kinds", "T.flow", "T.pure", "T.anchor", "GEN", "G.model", "G.anchor", "SIZE", "ENC", "DEC", "DET", "UNK.default", "BND"},
 		Floors: []core.Floor{
 			{Rule: "T.brace", Min: 60, Why: "emitting template functions"},
 			{Rule: "T.names", Min: 19, Why: "16 methods + 3 structure rules"},
@@ -268,8 +268,8 @@ func init() {
 		Technique: "nil-dereference analysis on the typed syntax of every read accessor, getter, view method and codec closure (a dereference must be dominated by a nil test of the same variable); mutators must not return silently on read-only empties",
 		DesignRef: "DESIGN.md 3.8, 4 C09",
 		LevelText: "For every generated type: each read method of the fast-reflection type (Descriptor, Type, New, Interface, Range, Has, Get, WhichOneof, GetUnknown, IsValid, ProtoMethods), each plain getter, each read method of the list/map views and the size/marshal/unmarshal closures either never dereference the receiver / backing pointer / oneof wrapper or do so only under a nil test of that same variable (structured dominance); size of a nil message is 0 and marshal returns the input buffer (ENC/SIZE.frame); view mutators touch the backing store on every path and never return early on a nil backing pointer (writes into read-only empties panic rather than being dropped). Get of an unpopulated message / oneof message member returns the typed-nil read-only message and of an empty list/map the view with a nil backing pointer (ACC.get, ACC.view). Open findings: F7 (Has/Get/Range/WhichOneof/GetUnknown dereference a nil receiver), F8 (typed-nil oneof wrappers in Marshal/Get/Range). Not decided: behaviour of protojson/prototext/Clone/Merge on nil beyond the accessors they call (A3).",
-		Engines:      E{refl.RunNil, codec.RunEnc, codec.RunSize, refl.RunAcc},
-		RulePrefixes: []string{"NIL", "ENC.nilwrap", "SIZE.nilwrap", "ENC.frame", "SIZE.frame", "ENC.walk", "SIZE.walk", "ACC.get", "ACC.has", "ACC.view", "ACC.whichoneof", "ACC.range", "G.model", "G.anchor", "GEN.build"},
+		Engines:      E{refl.RunNil, codec.RunEnc, codec.RunSize, refl.RunAcc, refl.RunCoh},
+		RulePrefixes: []string{"COH.msginfo", "COH.msgindex", "NIL", "ENC.nilwrap", "SIZE.nilwrap", "ENC.frame", "SIZE.frame", "ENC.walk", "SIZE.walk", "ACC.get", "ACC.has", "ACC.view", "ACC.whichoneof", "ACC.range", "G.model", "G.anchor", "GEN.build"},
 		Floors: []core.Floor{
 			{Rule: "NIL.recv", Min: 500, Why: "11 read methods x message types"},
 			{Rule: "NIL.getter", Min: 400, Why: "getters"},
@@ -328,8 +328,8 @@ func init() {
 		Technique: "canonicalisation of every accessor arm / view method (positional renaming, temporary substitution that never duplicates an allocation, identity-conversion removal) compared with the per-kind forms derived from the descriptor; presence predicates and effect analysis for the read side",
 		DesignRef: "DESIGN.md 3.11, 4 C08",
 		LevelText: "A generated message's whole state is its Go struct and every accessor is a function of (struct state, arguments) only (PURE: read accessors write nothing), so per-operation conformance on all states gives conformance on all histories. For every field of every generated type, each arm of Has, Clear, Get, Set, Mutable, NewField (exactly one arm per schema field; unknown descriptors panic), each block of Range (each field exactly once, under its presence predicate, with its own descriptor variable and the value Get returns; a false callback stops), each arm of WhichOneof and every method of every list/map view is canonicalised and must equal the form the protoreflect contract prescribes for the field's kind and shape: value constructor / unwrapper / conversion of the kind, zero value, oneof wrapper asserted and constructed, view backed by a pointer to the field (write-through), allocation on Mutable, detached values from NewField/NewElement/NewValue. Open finding F9: Clear of a oneof member is unconditional. Not decided: agreement of returned values with dynamicpb as executed comparisons; panic message texts.",
-		Engines:      E{refl.RunAcc, refl.RunPure, codec.RunUnkAccessors},
-		RulePrefixes: []string{"ACC", "PURE", "UNK.accessors", "G.model", "G.anchor", "GEN.build"},
+		Engines:      E{refl.RunAcc, refl.RunPure, codec.RunUnkAccessors, refl.RunCoh, refl.RunNil},
+		RulePrefixes: []string{"ACC", "PURE", "UNK.accessors", "COH.msginfo", "COH.msgindex", "NIL.msgmut", "NIL.mut", "G.model", "G.anchor", "GEN.build"},
 		Floors: []core.Floor{
 			{Rule: "ACC.arms", Min: 300, Why: "6 methods x message types"},
 			{Rule: "ACC.get", Min: 400, Why: "fields"},
@@ -368,6 +368,8 @@ func init() {
 		RulePrefixes: []string{"COH", "NIL.getter", "G.model", "G.anchor", "GEN.build"},
 		Floors: []core.Floor{
 			{Rule: "COH.rawdesc", Min: 15, Why: "generated files"},
+			{Rule: "COH.legacy", Min: 15, Why: "generated files"},
+			{Rule: "COH.ext", Min: 3, Why: "table, variables and TypeBuilder of the extension-declaring corpus file"},
 			{Rule: "COH.initchain", Min: 4, Why: "same-package imports in testpb, test3 and the corpus"},
 			{Rule: "COH.proto", Min: 6, Why: "six checked-in generated files with a .proto next to them"},
 			{Rule: "COH.gotypes", Min: 15, Why: "generated files"},
